@@ -105,3 +105,128 @@ Proof.
   split; [reflexivity|discriminate].
 Qed.
 Print Assumptions print_then_edit.
+
+(* ---- C14 over whole histories: observers anywhere, any number of prints ---- *)
+(* the history without any observer call *)
+Fixpoint drop_observers (h : list op) : list op :=
+  match h with [] => [] | Query :: r | Print :: r => drop_observers r | o :: r => o :: drop_observers r end.
+
+(* the state reached with the observer calls (x) against the state reached without them (y): same names, same
+   kinds, equal stored IDs where no number is due, and elsewhere the ID of y is the one of x or still unset *)
+Definition shadow1 (x y : item) : Prop :=
+  it_named x = it_named y /\ it_value x = it_value y /\ (numbered x = false -> it_id x = it_id y) /\ (it_id y = it_id x \/ it_id y = 0).
+Definition shadows (s s0 : list item) : Prop := Forall2 shadow1 s s0.
+
+Lemma shadow1_refl x : shadow1 x x. Proof. unfold shadow1. auto. Qed.
+Lemma shadows_refl l : shadows l l.
+Proof. induction l; constructor; auto using shadow1_refl. Qed.
+Lemma shadows_insert p x : forall a b, shadows a b -> shadows (insert_at p x a) (insert_at p x b).
+Proof.
+  induction p as [|p IH]; intros a b H; cbn [insert_at].
+  - constructor; [apply shadow1_refl|exact H].
+  - inversion H; subst; [constructor; [apply shadow1_refl|constructor]|]. constructor; [assumption|apply IH; assumption].
+Qed.
+Lemma shadows_remove p : forall a b, shadows a b -> shadows (remove_at p a) (remove_at p b).
+Proof.
+  induction p as [|p IH]; intros a b H; inversion H; subst; cbn [remove_at].
+  - constructor.
+  - assumption.
+  - constructor.
+  - constructor; [assumption|apply IH; assumption].
+Qed.
+Lemma shadows_rename p n : forall a b, shadows a b -> shadows (update_at p (rename n) a) (update_at p (rename n) b).
+Proof.
+  induction p as [|p IH]; intros a b H; inversion H as [|x y ? ? (N & V & I & J) Hr]; subst; cbn [update_at].
+  - constructor.
+  - constructor; [|assumption]. unfold shadow1, rename. cbn. auto.
+  - constructor.
+  - constructor; [unfold shadow1; auto|apply IH; assumption].
+Qed.
+
+Lemma shadow1_numbered x y : shadow1 x y -> numbered x = numbered y.
+Proof. intros (N & V & _). unfold numbered. rewrite N, V. reflexivity. Qed.
+
+(* a print of s keeps the relation: the numbers it stores are the ones s0 has, or s0 still has none *)
+Lemma shadows_print : forall s s0 k, shadows s s0 -> consistent s k -> shadows (llvm_number s k) s0.
+Proof.
+  induction s as [|x r IH]; intros s0 k H C; inversion H as [|? y ? r0 Hxy Hr]; subst; cbn [llvm_number]; [constructor|].
+  cbn [consistent] in C. fold (numbered x). destruct (numbered x) eqn:E.
+  - destruct C as [Cx Cr]. constructor; [|apply IH; assumption].
+    destruct Hxy as (N & V & I & J). unfold shadow1. cbn. rewrite numbered_set_id, E. repeat split; try assumption; [discriminate|].
+    destruct J as [J|J]; [|right; exact J]. destruct Cx as [Cx|Cx]; [right; congruence|left; congruence].
+  - constructor; [exact Hxy|apply IH; assumption].
+Qed.
+
+Lemma shadows_consistent : forall s s0 k, shadows s s0 -> consistent s k -> consistent s0 k.
+Proof.
+  induction s as [|x r IH]; intros s0 k H C; inversion H as [|? y ? r0 Hxy Hr]; subst; [exact I|].
+  cbn [consistent] in *. rewrite <- (shadow1_numbered x y Hxy). destruct (numbered x).
+  - destruct C as [Cx Cr]. split; [|apply (IH _ _ Hr Cr)].
+    destruct Hxy as (_ & _ & _ & J). destruct J as [J|J]; [rewrite J; exact Cx|left; exact J].
+  - apply (IH _ _ Hr C).
+Qed.
+
+Lemma shadows_shape s s0 : shadows s s0 -> same_shape s s0.
+Proof. intros H. induction H as [|x y ? ? (N & V & I & _) _ IH]; constructor; auto. Qed.
+
+(* one step: the run with observers and the run without stay related, unless the former panics *)
+Lemma step_shadows o s s0 s' : shadows s s0 -> step (Some s) o = Some s' ->
+  shadows s' (match o with Print | Query => s0 | _ => edit o s0 end).
+Proof.
+  intros H. destruct o; cbn [step edit].
+  - intros [= <-]. apply shadows_insert, H.
+  - intros [= <-]. apply shadows_remove, H.
+  - intros [= <-]. apply shadows_rename, H.
+  - destruct (assign_ids s) as [l'|] eqn:E; [|discriminate]. intros [= <-].
+    pose proof (assign_is_llvm s l' E) as ->. apply shadows_print; [exact H|].
+    apply (proj2 (assign_spec s 0)). unfold assign_ids in E. congruence.
+  - intros [= <-]. exact H.
+Qed.
+
+Lemma run_drop_observers_total : forall h l0, exists l0', run (drop_observers h) l0 = Some l0'.
+Proof.
+  unfold run. induction h as [|o r IH]; intros l0; [exists l0; reflexivity|].
+  destruct o; cbn [drop_observers fold_left step]; apply IH.
+Qed.
+
+Lemma run_shadows : forall h s s0 s', shadows s s0 -> fold_left step h (Some s) = Some s' ->
+  exists s0', fold_left step (drop_observers h) (Some s0) = Some s0' /\ shadows s' s0'.
+Proof.
+  induction h as [|o r IH]; intros s s0 s' H R; cbn [fold_left] in R.
+  - injection R as <-. exists s0. split; [reflexivity|exact H].
+  - destruct (step (Some s) o) as [s1|] eqn:E; [|rewrite step_none in R; discriminate].
+    pose proof (step_shadows o s s0 s1 H E) as H1.
+    destruct o; cbn [drop_observers fold_left step edit] in *; eapply IH; eassumption.
+Qed.
+
+(* THE statement: for every history -- construction and editing steps with print, type, operand, successor and
+   identifier queries interleaved at any points -- if the run with the observer calls does not panic, its final
+   print is exactly the final print of the steps alone *)
+Theorem observers_noop_unless_panic : forall h l r, final_print h l = Some r -> final_print (drop_observers h) l = Some r.
+Proof.
+  unfold final_print. intros h l r. rewrite !run_app. unfold run.
+  destruct (fold_left step h (Some l)) as [s'|] eqn:R; [|rewrite step_none; discriminate].
+  destruct (run_shadows h l l s' (shadows_refl l) R) as (s0' & R0 & Hs). rewrite R0.
+  cbn [fold_left step]. destruct (assign_ids s') as [l'|] eqn:E; [|discriminate]. intros [= <-].
+  assert (consistent s' 0) as C by (apply (proj2 (assign_spec s' 0)); unfold assign_ids in E; congruence).
+  pose proof (shadows_consistent s' s0' 0 Hs C) as C0.
+  pose proof (proj1 (assign_spec s0' 0) C0) as E0. unfold assign_ids. rewrite E0.
+  pose proof (assign_is_llvm s' l' E) as ->. f_equal. symmetry. apply llvm_number_shape, shadows_shape, Hs.
+Qed.
+
+(* the converse fails (KF-15): the steps alone print, the same steps with a print in between panic *)
+Theorem observers_noop_refuted : exists h l, final_print (drop_observers h) l <> None /\ final_print h l = None.
+Proof.
+  exists [Print; Insert 0 {| it_named := false; it_id := 0; it_value := true |}],
+         [ {| it_named := false; it_id := 0; it_value := true |}; {| it_named := false; it_id := 0; it_value := true |} ].
+  split; [discriminate|reflexivity].
+Qed.
+
+(* decidable: whether a history panics, and so whether the theorem applies, is computed by running it *)
+Definition safe_history (h : list op) (l : list item) : bool := match final_print h l with Some _ => true | None => false end.
+Corollary safe_history_observers_noop h l : safe_history h l = true -> final_print (drop_observers h) l = final_print h l.
+Proof.
+  unfold safe_history. destruct (final_print h l) as [r|] eqn:E; [|discriminate]. intros _.
+  apply observers_noop_unless_panic. exact E.
+Qed.
+Print Assumptions observers_noop_unless_panic.
